@@ -334,6 +334,17 @@ def run(prog, rep):
             for loop in [n for n in walk_no_nested(fn) if isinstance(n, ast.For)]:
                 incs = {ast.unparse(n.target) for n in ast.walk(loop) if isinstance(n, ast.AugAssign) and isinstance(n.op, ast.Add)
                         and isinstance(n.target, ast.Name)}
+                # an index taken from enumerate(...) advances once per iteration by construction
+                if isinstance(loop.iter, ast.Call) and isinstance(loop.iter.func, ast.Name) and loop.iter.func.id == 'enumerate' and \
+                        isinstance(loop.target, ast.Tuple) and isinstance(loop.target.elts[0], ast.Name):
+                    ev = loop.target.elts[0].id
+                    used = any(isinstance(x, ast.Name) and x.id == ev and isinstance(x.ctx, ast.Load) for x in ast.walk(loop))
+                    reassigned = any(isinstance(x, ast.Name) and x.id == ev and isinstance(x.ctx, ast.Store) for b_ in loop.body for x in ast.walk(b_))
+                    if used:
+                        rep.instance('R7', f'{cls.name}.{name}: index {ev} from enumerate(...)')
+                        if reassigned:
+                            rep.violation('R7', loc(cls.module, loop), f'{cls.name}.{name}', f'{ev} reset inside the loop',
+                                          f'the index {ev} used to derive ids is reassigned inside the loop')
                 for v in incs:
                     resets = [s for s in loop.body if isinstance(s, ast.Assign) and any(ast.unparse(t) == v for t in s.targets)]
                     blk = loop._parent.body if loop in getattr(loop._parent, 'body', []) else loop._parent.orelse
@@ -346,7 +357,7 @@ def run(prog, rep):
     sw = prog.cls('fim.user.topology:Topology').methods.get('add_switch')
     loops = [n for n in walk_no_nested(sw) if isinstance(n, ast.For)]
     rep.instance('R7', f'Topology.add_switch: ports over {norm(loops[0].iter) if loops else None}')
-    if not loops or ast.unparse(loops[0].iter) != 'range(1, nports + 1)':
+    if not loops or ' '.join(ast.unparse(loops[0].iter).split()) not in ('range(1, nports + 1)', 'range(1, 1 + nports)'):
         rep.violation('R7', loc(prog.cls("fim.user.topology:Topology").module, sw), 'Topology.add_switch', 'port loop', 'ports p1..pN must be created for N = nports')
     elif f'{{{ast.unparse(loops[0].target)}}}' not in ast.unparse(loops[0]):
         rep.violation('R7', loc(prog.cls("fim.user.topology:Topology").module, sw), 'Topology.add_switch', 'port names not derived from the loop index', 'port names/ids must differ per port')
